@@ -36,7 +36,7 @@ def _post(result, args, kwargs, old):
         text = code
     ctx.count('evaluations')
     ctx.count('contract_evals:Grammar.parse')
-    v = _state.get('version')
+    v = _ver(args)
     viol = treechecks.check_roundtrip(result, text, _state['rng'])
     for kind, msg in viol:
         ctx.violation(kind, msg, {'version': v, 'code': code})
@@ -79,6 +79,8 @@ def run_shard(spec, ctx):
     import parso
     _install(ctx, spec['seed'])
     rng = random.Random(spec['seed'] + 1)
+    if spec['kind'] == 'suite':
+        return _text.run_repo_suite(ID, ctx)
     it = _text.whole_files(spec, ctx) if spec['kind'] == 'files' else _text.cases(spec, ctx)
     for v, code, origin in it:
         _state['version'] = v
@@ -106,8 +108,19 @@ def shards(tier, seed):
     nf = 16
     s += [{'kind': 'files', 'shard': i, 'nshards': nf, 'file_stride': 12 if tier == 'quick' else 1,
            'budget_s': 60 if tier == 'quick' else 900} for i in range(nf)]
+    if tier == 'thorough':
+        s.append({'kind': 'suite'})
     return s
 
 
 def floors(tier):
     return {'evaluations': 2000, 'contract_evals:Grammar.parse': 2000}
+
+
+def _ver(args):
+    gv = getattr(args[0], 'version_info', None) if args else None
+    return '%d.%d' % (gv.major, gv.minor) if gv is not None else _state.get('version')
+
+
+def install_for_suite(ctx):
+    _install(ctx, 0)
